@@ -111,6 +111,7 @@ type trans struct {
 	curWrites   map[int]map[string]*writeSet
 	inHeadHavoc bool
 	localAllocs map[*ssa.Alloc]bool
+	heapRefs    map[string]string
 }
 
 func (tr *trans) errorf(f string, a ...any) {
@@ -144,8 +145,34 @@ func (tr *trans) initSym(name string) Term {
 		tr.errorf("internal: state var %s without sort", name)
 		srt = "Int"
 	}
-	tr.vc.declFun("state:"+name, fmt.Sprintf("(declare-const %s %s)", s, srt))
+	decl := fmt.Sprintf("(declare-const %s %s)", s, srt)
+	// memory safety of the entry heap: every reference stored in it denotes an object that already exists
+	n0 := q("$next@0")
+	switch tr.heapRefs[name] {
+	case "ptr":
+		decl += fmt.Sprintf("\n(assert (forall ((r Int)) (! (and (<= 0 (select %s r)) (< (select %s r) %s)) :pattern ((select %s r)))))", s, s, n0, s)
+	case "slice":
+		decl += fmt.Sprintf("\n(assert (forall ((r Int)) (! (and (<= 0 (sarr (select %s r))) (< (sarr (select %s r)) %s)) :pattern ((select %s r)))))", s, s, n0, s)
+	case "arrptr":
+		decl += fmt.Sprintf("\n(assert (forall ((r Int) (i Int)) (! (and (<= 0 (select (select %s r) i)) (< (select (select %s r) i) %s)) :pattern ((select (select %s r) i)))))", s, s, n0, s)
+	case "arrslice":
+		decl += fmt.Sprintf("\n(assert (forall ((r Int) (i Int)) (! (and (<= 0 (sarr (select (select %s r) i))) (< (sarr (select (select %s r) i)) %s)) :pattern ((select (select %s r) i)))))", s, s, n0, s)
+	}
+	if name != "$next" && tr.heapRefs[name] != "" {
+		tr.vc.declFun("state:$next", fmt.Sprintf("(declare-const %s Int)", n0))
+	}
+	tr.vc.declFun("state:"+name, decl)
 	return s
+}
+
+func refKind(t types.Type) string {
+	switch t.Underlying().(type) {
+	case *types.Pointer, *types.Map, *types.Chan:
+		return "ptr"
+	case *types.Slice:
+		return "slice"
+	}
+	return ""
 }
 
 func (tr *trans) getState(st State, name string) Term {
@@ -198,18 +225,23 @@ func (tr *trans) structHeap(t types.Type, i int) string {
 	st := t.Underlying().(*types.Struct)
 	name := "H." + typeKey(t) + "." + st.Field(i).Name()
 	tr.stateSort[name] = "(Array Int " + tr.vc.sortOf(st.Field(i).Type()) + ")"
+	tr.heapRefs[name] = refKind(st.Field(i).Type())
 	return name
 }
 
 func (tr *trans) cellHeap(t types.Type) string {
 	name := "H." + typeKey(t)
 	tr.stateSort[name] = "(Array Int " + tr.vc.sortOf(t) + ")"
+	tr.heapRefs[name] = refKind(t)
 	return name
 }
 
 func (tr *trans) arrHeap(elem types.Type) string {
 	name := "A." + typeKey(elem)
 	tr.stateSort[name] = "(Array Int (Array Int " + tr.vc.sortOf(elem) + "))"
+	if k := refKind(elem); k != "" {
+		tr.heapRefs[name] = "arr" + k
+	}
 	return name
 }
 
@@ -823,7 +855,7 @@ func TranslateFunc(prog *Program, fn *ssa.Function, fc *FuncContract) *trans {
 			stateSort: map[string]Sort{"$next": "Int"}, known: map[string]bool{}, in: map[int]State{}, out: map[int]State{}, reach: map[int]Term{},
 			edgeCond: map[[2]int]Term{}, pure: map[string]*fnRef{}, assumed: map[string]bool{}, specRefs: map[string]*fnRef{}, globals: map[string]string{},
 			nobl: map[string]int{}, dispatched: map[string]bool{}, termVal: map[Term]ssa.Value{}, termBlock: map[Term]int{}, termFresh: map[Term]bool{},
-			loopWrites: loopWrites, curWrites: map[int]map[string]*writeSet{}, localAllocs: map[*ssa.Alloc]bool{}}
+			loopWrites: loopWrites, curWrites: map[int]map[string]*writeSet{}, localAllocs: map[*ssa.Alloc]bool{}, heapRefs: map[string]string{}}
 		for k := range known {
 			tr.known[k] = true
 		}
@@ -862,7 +894,7 @@ func TranslateFunc(prog *Program, fn *ssa.Function, fc *FuncContract) *trans {
 	}
 	// final pass
 	tr2 := &trans{prog: prog, fn: fn, fc: fc, key: funcKey(fn), vc: NewVC(prog), vals: map[ssa.Value]Term{}, tuples: map[ssa.Value][]Term{},
-		stateSort: tr.stateSort, known: map[string]bool{}, in: map[int]State{}, out: map[int]State{}, reach: map[int]Term{},
+		stateSort: tr.stateSort, heapRefs: tr.heapRefs, known: map[string]bool{}, in: map[int]State{}, out: map[int]State{}, reach: map[int]Term{},
 		edgeCond: map[[2]int]Term{}, pure: map[string]*fnRef{}, assumed: map[string]bool{}, specRefs: map[string]*fnRef{}, globals: map[string]string{},
 		nobl: map[string]int{}, dispatched: map[string]bool{}, termVal: map[Term]ssa.Value{}, termBlock: map[Term]int{}, termFresh: map[Term]bool{},
 		loopWrites: loopWrites, curWrites: map[int]map[string]*writeSet{}, localAllocs: map[*ssa.Alloc]bool{}}
@@ -1246,6 +1278,19 @@ func (tr *trans) loopEnv(li *loopInfo, predIdx int, st State) *Env {
 					sn := "iter." + nx.Iter.(*ssa.Range).Name() + ".pos"
 					tr.stateSort[sn] = "Int"
 					return env.intSV(tr.getState(st, sn)), true
+				}
+			}
+		}
+		if name == "iterseen" {
+			// ghost set of the keys already visited by the map iterator feeding this loop
+			for _, in := range h.Instrs {
+				if nx, ok := in.(*ssa.Next); ok && !nx.IsString {
+					rg := nx.Iter.(*ssa.Range)
+					mt := rg.X.Type().Underlying().(*types.Map)
+					sn := "iter." + rg.Name() + ".seen"
+					srt := "(Array " + tr.vc.sortOf(mt.Key()) + " Bool)"
+					tr.stateSort[sn] = srt
+					return SV{t: tr.getState(st, sn), sort: srt, kind: "gset", kty: mt.Key()}, true
 				}
 			}
 		}
